@@ -123,11 +123,14 @@ impl ConvexPolygon {
             .iter_mut()
             .for_each(|pt| pt.coords.component_mul_assign(scale));
 
-        for n in &mut self.normals {
-            *n = Unit::try_new(n.component_mul(scale), 0.0)?;
+        // A mirror image turns the counter-clockwise vertices clockwise.
+        if scale.x * scale.y < 0.0 {
+            self.points.reverse();
         }
 
-        Some(self)
+        // The normals of the scaled edges are not the scaled normals (they transform
+        // by the inverse transpose of the scaling): recompute them from the edges.
+        Self::from_convex_polyline_unmodified(self.points)
     }
 
     /// Returns a mitered offset of the polygon.
